@@ -130,6 +130,7 @@ class Gen:
             f"switch ({x}) {{ case 1: {y} = {z} + 1; break; default: {y}++; }}",
             f"switch ({x}) {{ case 1: while ({y} > 0) {{ {y}--; }} break; }}",
             "#pragma omp parallel\n", f"_Static_assert(1, \"m\");",
+            f"g({x}, {y}, {z});", f"h({x}, 1, {y}, 2);", f"return g({x}, {y}, {z});", f"{x} = g({y}, {z}, 3);",
             f"{x} = g({y}) + 1;", f"assert({x}++ > 0);", f"{x} = assert({y});", f"do {x}--; while ({x} > 0);",
         ]
         return r.choice(opts)
